@@ -30,7 +30,7 @@ CFG = {
                   "depends on the walk order). Only --target x86_64-unknown-linux-gnu with --no-cross-compile-assistance is exercised (no musl "
                   "toolchain here). Outside the quantifier: workspaces without the ignore file for the package directory (a second run then "
                   "discovers packaged composites), buildpack ids whose directory name is '.' or '..' (the output directory then IS the profile / "
-                  "target directory and its wipe removes sibling outputs — see corpus/C15/boundary-dot-id.txt), output directories whose path "
+                  "target directory and its wipe removes sibling outputs — see corpus/C15/boundary-dot-id.case.inactive), output directories whose path "
                   "is occupied by a regular file, duplicate buildpack ids, bin target names shared by two crates of one workspace.",
     "shrink": [(4, "|"), (0, ";")],
     "search_rounds": 1,
